@@ -7,6 +7,7 @@ import (
 	"sync/atomic"
 	"time"
 
+	"github.com/IrineSistiana/mosdns/v5/pkg/verifhook"
 	"go.uber.org/zap"
 )
 
@@ -68,6 +69,7 @@ func newLazyDnsConn(
 		lc.dialErr = err
 		close(lc.dialFinished)
 		lc.mu.Unlock()
+		verifhook.Point("lazy.dial.finished")
 	}()
 	return lc
 }
@@ -148,6 +150,7 @@ func (ote *lazyDnsConnEarlyReservedExchanger) ExchangeReserved(ctx context.Conte
 		if err != nil {
 			return nil, err
 		}
+		verifhook.Point("lazy.early.reserve")
 		rec, _ := dc.ReserveNewQuery()
 		ote.earlyReserveCallWg.Done()
 		if rec == nil {
